@@ -13,7 +13,7 @@ Fixpoint open_rows_a (last inner : N) (anc : list N) (ros : list oframe) : list 
   | [] => []
   | o :: t =>
       mkrow (o_addr o) (last - o_t0 o) (last - o_t0 o - sumdur (o_kids o) - inner)
-            (existsb (N.eqb (o_addr o)) (map o_addr t ++ anc))
+            (recursive (o_addr o) (map o_addr t ++ anc))
       :: open_rows_a last (last - o_t0 o) anc t
   end.
 Lemma open_rows_a_nil last inner ros : open_rows_a last inner [] ros = open_rows last inner ros.
@@ -30,7 +30,7 @@ Lemma open_rows_a_snoc last : forall l i anc o,
   open_rows_a last i anc (l ++ [o])
   = open_rows_a last i (o_addr o :: anc) l
     ++ [mkrow (o_addr o) (last - o_t0 o) (last - o_t0 o - sumdur (o_kids o) - inner_of last i l)
-              (existsb (N.eqb (o_addr o)) anc)].
+              (recursive (o_addr o) anc)].
 Proof.
   induction l as [|x t IH]; intros i anc o.
   - reflexivity.
@@ -67,7 +67,7 @@ Proof.
 Qed.
 
 Lemma fits_kids last : forall ros inner, fits last inner ros -> Forall (fun o => Forall wt (o_kids o)) ros.
-Proof. induction ros as [|o t IH]; intros inner H; [constructor|]. cbn in H. destruct H as (_ & A & _ & C). constructor; eauto. Qed.
+Proof. induction ros as [|o t IH]; intros inner H; [constructor|]. cbn in H. destruct H as (A & _ & C). constructor; eauto. Qed.
 
 (* ------------------------------------------------------------------ a task with open calls *)
 Definition good_task (max_stack : N) (tt : ttrace) : Prop :=
@@ -95,7 +95,7 @@ Lemma open_rows_self last : forall ros inner, fits last inner ros ->
 Proof.
   induction ros as [|o t IH]; intros inner Hf.
   - cbn. unfold okids_dur, sumN, inner_of. cbn. lia.
-  - cbn [fits] in Hf. destruct Hf as (_ & _ & Hfit & Hrest). specialize (IH _ Hrest).
+  - cbn [fits] in Hf. destruct Hf as (_ & Hfit & Hrest). specialize (IH _ Hrest).
     cbn [open_rows]. unfold sum_self in *. cbn [fold_right w_self].
     unfold okids_dur, sumN in *. cbn [map fold_right].
     assert (inner_of last inner (o :: t) = inner_of last (last - o_t0 o) t) as ->.
